@@ -122,7 +122,11 @@ def l92(n, keyed, tiny=False):
         msgs = [PendingMessage(SeqNum(symint('m%d_seq' % i, 0, 65535)), PacketType.APP, b'' if i % 2 else b'x', None, RetryMode.NONE) for i in range(n)]
     else:
         msgs = sym_msgs(n, 1500)
-    total = sum(rope.sx_len(m.payload) for m in msgs) + Packet.overhead(n)
+    # framing bytes, written independently of Packet.overhead: none for an empty packet, a 2-byte seq for a single
+    # message, 5 bytes (length, seq, type) per message otherwise
+    ref_overhead = 0 if n == 0 else (2 if n == 1 else 5 * n)
+    check(Packet.overhead(n) == ref_overhead, 'Packet.overhead(n) is the framing the codec really writes')
+    total = sum(rope.sx_len(m.payload) for m in msgs) + ref_overhead
     assume(total <= 65535)
     if n == 1:
         # a single message travels under the header's type
@@ -170,7 +174,9 @@ def replay_l92(cfg, m):
     try:
         pkt = c.Packet.create(h, msgs)
         raw = pkt.to_bytes(key)
+        ref_overhead = 0 if n == 0 else (2 if n == 1 else 5 * n)
         bad = len(raw) != pkt.total_size(key) or h.count != n or h.length != len(pkt.msg)
+        bad = bad or c.Packet.overhead(n) != ref_overhead or h.length != sum(len(x.payload) for x in msgs) + ref_overhead
         h2 = c.PacketHeader.from_bytes(not h.isServer, raw)
         pkt2 = c.Packet.from_bytes(h2, None if (keyed and h.pkt_type == c.PacketType.SERVER_HELLO) else key, raw)
         bad = bad or len(pkt2.msgs) != n
